@@ -104,7 +104,8 @@ func runC16(c *runCtx) {
 // of / inside a document (recursion anywhere outside the guarded scanner shows up the same way).
 func runBombs(c *runCtx, prop string) {
 	self, _ := os.Executable()
-	shapes := []string{"arr", "obj", "mixed", "padded", "ws-pad", "nl-pad", "ws-inside", "sib-arr", "sib-obj", "wide-obj", "wide-arr", "arr-garbage", "deep-ok"}
+	shapes := []string{"arr", "obj", "mixed", "padded", "ws-pad", "nl-pad", "ws-inside", "sib-arr", "sib-obj", "wide-obj", "wide-arr", "arr-garbage", "deep-ok",
+		"esc-val", "esc-key", "uni-esc", "long-str", "long-num", "deep-pad", "lines"}
 	depths := []int{10000, 100000, 1000000}
 	if c.tier == "thorough" {
 		depths = append(depths, 10000000)
@@ -137,7 +138,7 @@ func runBombs(c *runCtx, prop string) {
 						continue
 					}
 					f := strings.Fields(res)
-					wantJSON := strings.HasSuffix(sh, "pad") || sh == "ws-inside" || strings.HasPrefix(sh, "wide-") || sh == "deep-ok" // no nesting beyond the cap: valid documents
+					wantJSON := (strings.HasSuffix(sh, "pad") && sh != "deep-pad") || sh == "ws-inside" || strings.HasPrefix(sh, "esc-") || sh == "uni-esc" || strings.HasPrefix(sh, "long-") || sh == "lines" || strings.HasPrefix(sh, "wide-") || sh == "deep-ok" // no nesting beyond the cap: valid documents
 					if sh == "arr-garbage" && f[1] == "1" {
 						c.propfail(c.garbageProp(), fmt.Sprintf("brackets followed by a mismatched closer and junk reported as JSON: %s result=%s", desc, f[2]))
 						continue
@@ -146,7 +147,7 @@ func runBombs(c *runCtx, prop string) {
 					if isJSON && !wantJSON {
 						c.propfail("C16", fmt.Sprintf("nesting bomb beyond the cap reported as JSON: %s result=%s", desc, f[2]))
 					}
-					if wantJSON && cl && lim == 0 && f[2] != "application/json" && f[2] != "application/geo+json" && f[2] != "model/gltf+json" {
+					if wantJSON && cl && lim == 0 && f[2] != "application/json" && f[2] != "application/geo+json" && f[2] != "model/gltf+json" && !(sh == "lines" && f[2] == "application/x-ndjson") {
 						c.propfail("C08", fmt.Sprintf("valid document with %d bytes of padding not reported as JSON: %s result=%s", d, desc, f[2]))
 					}
 				}
@@ -195,6 +196,44 @@ func bombInput(sh string, d int, cl bool) []byte {
 		return []byte(s)
 	case "arr-garbage": // malformed whatever the depth
 		return []byte(strings.Repeat("[", d/100+4200) + "} this is not json")
+	case "esc-val": // no nesting: one string value made of d two-byte escapes
+		s := "[\"" + strings.Repeat("\\n", d)
+		if cl {
+			s += "\"]"
+		}
+		return []byte(s)
+	case "esc-key":
+		s := "{\"" + strings.Repeat("\\\"", d)
+		if cl {
+			s += "\":1}"
+		}
+		return []byte(s)
+	case "uni-esc":
+		s := "[\"" + strings.Repeat("\\u0041", d)
+		if cl {
+			s += "\"]"
+		}
+		return []byte(s)
+	case "long-str":
+		s := "{\"k\":\"" + strings.Repeat("a", d)
+		if cl {
+			s += "\"}"
+		}
+		return []byte(s)
+	case "long-num":
+		s := "[" + strings.Repeat("7", d)
+		if cl {
+			s += "]"
+		}
+		return []byte(s)
+	case "deep-pad": // deeper than the cap, with d bytes of white space in the middle: the cap does not depend on the size
+		return []byte(strings.Repeat("[", 6000) + strings.Repeat(" ", d) + strings.Repeat("]", 6000))
+	case "lines": // d short lines, each a document of its own
+		s := strings.Repeat("{\"a\":1}\n", d)
+		if !cl {
+			s += "{\"a\""
+		}
+		return []byte(s)
 	case "deep-ok": // as deep as allowed, and not deeper
 		return closed("arr", 4096)
 	case "ws-pad":
